@@ -535,6 +535,37 @@ func enum(tier string) []Input {
 		}
 	}
 	rec(nil, false)
+
+	// second enumeration: histories with at least one write-back (full evictions only, see gen), one level shallower
+	wbAlphabet := append(append([]sym{}, alphabet[:8]...), sym{op: "evict", num: 1, den: 1}, sym{op: "flush"}, sym{op: "writeback"})
+	wbDepth := depth - 1
+	var recWB func(prefix []sym, usedKey bool)
+	recWB = func(prefix []sym, usedKey bool) {
+		hasWB := false
+		for _, s := range prefix {
+			if s.op == "writeback" {
+				hasWB = true
+			}
+		}
+		if hasWB {
+			in := Input{Stream: "enum-writeback", Keys: 2}
+			for i, s := range prefix {
+				in.Ops = append(in.Ops, Op{Op: s.op, Key: s.key, Val: 10 + i, Num: s.num, Den: s.den})
+			}
+			out = append(out, in)
+		}
+		if len(prefix) == wbDepth {
+			return
+		}
+		for _, s := range wbAlphabet {
+			keyed := s.op != "evict" && s.op != "flush" && s.op != "writeback"
+			if keyed && !usedKey && s.key != 0 {
+				continue
+			}
+			recWB(append(append([]sym{}, prefix...), s), usedKey || keyed)
+		}
+	}
+	recWB(nil, false)
 	return out
 }
 
